@@ -460,4 +460,5 @@ def run_stream(rep, name, harness, driver, lines, oracle=None, nontrivial=None,
     st["histogram"] = dict(sorted(hist.items(), key=lambda kv: -kv[1])[:40])
     if lines:
         for i in sorted(rng.sample(range(len(lines)), min(3, len(lines)))):
-            rep.cov["samples"].append({"stream": name, "input": lines[i], "implementation": impl.get(i), "model": model[i]})
+            rep.cov["samples"].append({"stream": name, "input": lines[i][:600], "implementation": (impl.get(i) or "")[:600], "model": model[i][:600]})
+    return impl, model
